@@ -1,9 +1,73 @@
 import ModVerif.Drv.Util
+import ModVerif.Drv.TlogUtil
+import ModVerif.Model.Tlog
+import ModVerif.Model.TlogNote
 namespace ModVerif.Drv.Tlog
-open ModVerif ModVerif.Drv
+open ModVerif ModVerif.Drv ModVerif.Drv.TlogUtil ModVerif.Tlog ModVerif.TlogNote
 
-/-- stub: no ops modelled yet -/
+def store (recs : List Bytes) : Except Err (List Bytes) := buildStore leafH nodeH recs
+
+def withStore (recs : List Bytes) (f : List Bytes → Except Err (List Bytes)) : String :=
+  showHashes (store recs >>= f)
+
 def handle : Handler
+  | "sha256", [a] => do let a ← hx a; pure (xh (Sha256.sha256 a))
+  | "recordhash", [a] => do let a ← hx a; pure (xh (leafH a))
+  | "nodehash", [a, b] => do let a ← hx a; let b ← hx b; pure (xh (nodeH a b))
+  | "maxpow2", [n] => do let n ← n.toNat?; let (k, l) := maxpow2 n; pure s!"{k} {l}"
+  | "storedhashindex", [l, n] => do let l ← l.toNat?; let n ← n.toNat?; pure (toString (storedHashIndex l n))
+  | "splitstoredhashindex", [i] => do
+    let i ← i.toNat?
+    match splitStoredHashIndex i with
+    | .ok (l, n) => pure s!"{l} {n}"
+    | .error e => pure (showErr e)
+  | "storedhashcount", [n] => do let n ← n.toNat?; pure (toString (storedHashCount n))
+  | "storedhashes", [r] => do let r ← records r; pure (withStore r pure)
+  | "treehash", [m, r] => do
+    let m ← m.toNat?; let r ← records r
+    pure (match store r >>= fun st => treeHash nodeH emptyH m (storeReader st) with
+      | .ok h => xh h
+      | .error e => showErr e)
+  | "proverecord", [t, n, r] => do
+    let t ← int? t; let n ← int? n; let r ← records r
+    pure (withStore r fun st => proveRecord nodeH t n (storeReader st))
+  | "provetree", [t, n, r] => do
+    let t ← int? t; let n ← int? n; let r ← records r
+    pure (withStore r fun st => proveTree nodeH t n (storeReader st))
+  | "checkrecord", [p, t, th, n, h] => do
+    let p ← hxList p; let t ← int? t; let th ← hx th; let n ← int? n; let h ← hx h
+    pure (showUnit (checkRecord nodeH p t th n h))
+  | "checktree", [p, t, th, n, h] => do
+    let p ← hxList p; let t ← int? t; let th ← hx th; let n ← int? n; let h ← hx h
+    pure (showUnit (checkTree nodeH p t th n h))
+  | "formattree", [n, h] => do let n ← int? n; let h ← hx h; pure (xh (formatTree { n := n, hash := h }))
+  | "parsetree", [t] => do
+    let t ← hx t
+    pure (match parseTree t with
+      | some tr => s!"{tr.n} {xh tr.hash}"
+      | none => "err")
+  | "formatrecord", [id, t] => do
+    let id ← int? id; let t ← hx t
+    pure (match formatRecord id t with
+      | some m => xh m
+      | none => "err")
+  | "parserecord", [m] => do
+    let m ← hx m
+    pure (match parseRecord m with
+      | some (id, text, rest) => s!"{id} {xh text} {xh rest}"
+      | none => "err")
+  | "parsehash", [s] => do
+    let s ← hx s
+    pure (match parseHash s with
+      | some h => xh h
+      | none => "err")
+  | "hashstring", [h] => do let h ← hx h; pure (xh (hashString h))
+  | "marshaljson", [h] => do let h ← hx h; pure (xh (marshalJSON h))
+  | "unmarshaljson", [s] => do
+    let s ← hx s
+    pure (match unmarshalJSON s with
+      | some h => xh h
+      | none => "err")
   | _, _ => none
 
 end ModVerif.Drv.Tlog
